@@ -284,6 +284,9 @@ class BaseGeo(BaseTransform):
         style = self.style  # triggers style creation
         if isinstance(val, dict):
             style.update(val)
+        elif isinstance(val, self._style_class):
+            # take over the values of the given style object, not the object itself
+            style = val.copy()
         elif not isinstance(val, self._style_class):
             raise ValueError(
                 f"Input parameter `style` must be of type {self._style_class}.\n"
